@@ -41,6 +41,19 @@ func regressionScenarios(prop string) []regression {
 	out = append(out, regression{"D3-map-dynamic-selector", mk(&Rule{Name: "R0", Desc: "d3m", Sal: 0,
 		When: mkBin("<", eVar(vSel(vPath("F", "M"), eVar(vPath("F", "S")))), cInt(3)),
 		Then: []*Stmt{assign(vSel(vPath("F", "M"), cStr("a")), "=", mkBin("+", eVar(vSel(vPath("F", "M"), cStr("a"))), cInt(1)))}})})
+	// siblings below a slice element (four-component paths), the written one read through a computed selector
+	{
+		it := func(i *Expr, f string) *Var { return vMember(vSel(vPath("F", "Items"), i), f) }
+		sc := mk(
+			&Rule{Name: "Raise", Desc: "", Sal: 0,
+				When: mkBin("<", eVar(it(eVar(vPath("F", "I")), "X")), cInt(3)),
+				Then: []*Stmt{assign(it(cInt(0), "X"), "=", mkBin("+", eVar(it(cInt(0), "X")), cInt(1)))}},
+			&Rule{Name: "Lift", Desc: "", Sal: 5,
+				When: mkBin("<", eVar(it(eVar(vPath("F", "I")), "Y")), cFloat(3)),
+				Then: []*Stmt{assign(it(cInt(0), "Y"), "=", mkBin("+", eVar(it(cInt(0), "Y")), cFloat(1)))}})
+		sc.Fact.Items[0].X, sc.Fact.Items[0].Y = 0, 0.5
+		out = append(out, regression{"deep-path-siblings-dynamic-selector", sc})
+	}
 	// the flat class of proofs/Frame.v (where the hypotheses of the refinement theorem are theorems): must simply hold
 	neg := func(e *Expr) *Expr { return eParen(true, e) }
 	fl := mk(
